@@ -362,3 +362,131 @@ theorem gomaxprocs_key (r : ResView) :
 example : parts [97, 45, 98, 47, 99, 61, 49, 45, 52] = ([97, 45, 98], [[47, 99, 61, 49], [45, 52]]) := by decide
 
 end C05
+
+namespace C05
+open Bytes Fmt.Name Proc.Extract
+
+/-! ### `.fullname` with excluded keys -/
+
+theorem hasPrefix_append (p rest k : Bytes) (h : hasPrefix p k = true) : hasPrefix (p ++ rest) k = true := by
+  induction p generalizing k with
+  | nil => cases k <;> simp_all [hasPrefix]
+  | cons a as ih =>
+    cases k with
+    | nil => simp [hasPrefix]
+    | cons c cs =>
+      simp only [hasPrefix, Bool.and_eq_true] at h
+      simp only [List.cons_append, hasPrefix, Bool.and_eq_true]
+      exact ⟨h.1, ih cs h.2⟩
+
+theorem contains_of_hasPrefix (b k : Bytes) (h : hasPrefix b k = true) : contains b k = true := by
+  cases b with
+  | nil => cases k <;> simp_all [contains, hasPrefix]
+  | cons c cs => simp [contains, h]
+
+theorem contains_append_left (a b k : Bytes) (h : contains b k = true) : contains (a ++ b) k = true := by
+  induction a with
+  | nil => simpa using h
+  | cons x xs ih => simp [contains, ih]
+
+theorem contains_flatten (ps : List Bytes) (p k : Bytes) (hp : p ∈ ps) (h : hasPrefix p k = true) :
+    contains ps.flatten k = true := by
+  induction ps with
+  | nil => cases hp
+  | cons q qs ih =>
+    simp only [List.flatten_cons]
+    rcases List.mem_cons.mp hp with rfl | hmem
+    · exact contains_of_hasPrefix _ _ (hasPrefix_append _ _ _ h)
+    · exact contains_append_left _ _ _ (ih hmem)
+
+theorem hasByte_flatten (ps : List Bytes) (p : Bytes) (c : UInt8) (hp : p ∈ ps) (h : p.head? = some c) :
+    hasByte ps.flatten c = true := by
+  induction ps with
+  | nil => cases hp
+  | cons q qs ih =>
+    simp only [List.flatten_cons, hasByte, List.any_append, Bool.or_eq_true]
+    rcases List.mem_cons.mp hp with rfl | hmem
+    · left
+      cases p with
+      | nil => simp at h
+      | cons x xs => simp at h; subst h; simp
+    · right; simpa [hasByte] using ih hmem
+
+/-- **fullname_excluding_spec** — the `.fullname` extractor with excluded keys (fast path "nothing
+to delete" included) equals the specification computed from the decomposition, for every name
+and every exclusion list. -/
+theorem fullname_excluding_spec (exclude : List Bytes) (n : Bytes) :
+    Proc.Extract.fullNameExcluding exclude n
+      = Spec.Name.fullNameExcluding exclude (parts n).1 (parts n).2 := by
+  have hcat := parts_concat n
+  unfold Proc.Extract.fullNameExcluding Spec.Name.fullNameExcluding
+  simp only
+  generalize hexc : exclude.any (· == dotName) = excName
+  generalize hsubs : exclude.filter (·.head? == some slash) = subs
+  have hexc' : exclude.any (· == [46, 110, 97, 109, 101]) = excName := by rw [← hexc]; rfl
+  have hgk : gomaxprocsKey = Spec.Name.gomaxprocsKey := rfl
+  rw [hexc', ← hgk]
+  generalize hexcG : subs.any (· == gomaxprocsKey) = excG
+  -- the kept-parts predicates coincide
+  have hkeep : ∀ part : Bytes,
+      (!((subs.map (· ++ [eqc])).any (hasPrefix part ·)) && !(excG && part.head? == some dash))
+        = (!(subs.any fun k => hasPrefix part (k ++ [eqc])) && !(excG && part.head? == some dash)) := by
+    intro part; simp [List.any_map, Function.comp_def]
+  -- when nothing is excluded at all, both sides are the name
+  have hall : ∀ (keep : Bytes → Bool), (∀ p ∈ (parts n).2, keep p = true) →
+      (parts n).1 ++ ((parts n).2.filter keep).flatten = n := by
+    intro keep hk
+    rw [List.filter_eq_self.mpr hk]; exact hcat
+  by_cases h0 : ((subs.map (· ++ [eqc])).isEmpty && !excName && !excG) = true
+  · -- early return of newExtractorFullName
+    simp only [h0, if_true]
+    simp only [Bool.and_eq_true, Bool.not_eq_true', List.isEmpty_iff, List.map_eq_nil_iff] at h0
+    obtain ⟨⟨hs, hn⟩, hg⟩ := h0
+    subst hs
+    simp only [hn, hg, Bool.false_eq_true, if_false, List.any_nil, Bool.not_false, Bool.false_and,
+      Bool.and_self]
+    symm; apply hall; intros; rfl
+  · simp only [h0, Bool.false_eq_true, if_false]
+    unfold extractFullExcluded
+    simp only
+    by_cases hfound : (excName || (subs.map (· ++ [eqc])).any (contains n ·) || (excG && hasByte n dash)) = true
+    · simp only [hfound, Bool.not_true, Bool.false_eq_true, if_false]
+      have : (fun part => !((subs.map (· ++ [eqc])).any (hasPrefix part ·)) && !(excG && part.head? == some dash))
+           = (fun part => !(subs.any fun k => hasPrefix part (k ++ [eqc])) && !(excG && part.head? == some dash)) :=
+        funext hkeep
+      rw [this]
+    · -- nothing found in the name: every part is kept and the base stays
+      have hf : (excName || (subs.map (· ++ [eqc])).any (contains n ·) || (excG && hasByte n dash)) = false := by
+        simpa using hfound
+      simp only [hf, Bool.not_false, if_true]
+      simp only [Bool.or_eq_false_iff] at hf
+      obtain ⟨⟨hn, hcont⟩, hgm⟩ := hf
+      simp only [hn, Bool.false_eq_true, if_false]
+      symm; apply hall
+      intro p hp
+      simp only [Bool.and_eq_true, Bool.not_eq_true']
+      constructor
+      · rw [List.any_eq_false]
+        intro k hk hpre
+        have hc : contains n (k ++ [eqc]) = true := by
+          rw [← hcat]
+          exact contains_append_left _ _ _ (contains_flatten _ _ _ hp hpre)
+        rw [List.any_eq_false] at hcont
+        exact hcont (k ++ [eqc]) (List.mem_map.mpr ⟨k, hk, rfl⟩) hc
+      · cases hG : excG with
+        | false => simp
+        | true =>
+          simp only [Bool.true_and]
+          rw [hG] at hgm
+          simp only [Bool.true_and] at hgm
+          cases hh : (p.head? == some Spec.Name.dash) with
+          | false => rfl
+          | true =>
+            have hd : p.head? = some dash := by simpa using hh
+            have : hasByte n dash = true := by
+              rw [← hcat]
+              simp only [hasByte, List.any_append, Bool.or_eq_true]
+              right; simpa [hasByte] using hasByte_flatten _ _ _ hp hd
+            rw [this] at hgm; cases hgm
+
+end C05
